@@ -2,7 +2,7 @@
 LLVM IR in parallel, attribute compile errors to kernels, compare normal forms.
 """
 import os, re, json, time
-from . import tc, ir
+from . import tc, ir, gate
 
 
 class Kernel:
@@ -167,6 +167,8 @@ def run_obligations(work, obs, batch=24, second_chance=True, log=None):
                     ob.status, ob.matched_ref, ob.pipeline = "proved", j, mode
                     break
             else:
+                if _gated_match(mod, li, ob, mode):
+                    continue
                 pend.append((li, ob))
         if pend and second_chance and llpath:
             # second pipeline: run the module through opt -O2 again, compare again
@@ -192,7 +194,8 @@ def run_obligations(work, obs, batch=24, second_chance=True, log=None):
                             ob.status, ob.matched_ref, ob.pipeline = "proved", j, pname
                             break
                     else:
-                        still.append((li, ob))
+                        if not _gated_match(mod2, li, ob, pname):
+                            still.append((li, ob))
                 pend = still
         for li, ob in pend:
             ob.status = "refuted"
@@ -200,6 +203,38 @@ def run_obligations(work, obs, batch=24, second_chance=True, log=None):
 
     tc.pmap(do, jobs)
     return obs
+
+
+def _gated_match(mod, li, ob, pname):
+    """second normal form: gated expressions (loop-free functions only)"""
+    try:
+        g = gate.gated(mod, mod.functions["k%d_cnl" % li])
+    except (gate.Unsupported, RecursionError, KeyError, AttributeError, ValueError, TypeError) as e:
+        ob.gated_note = "gated form unavailable: %r" % (e,)
+        return False
+    ob.gated_cnl = gate.show(g)
+    ob.gated_refs = []
+    for j in range(len(ob.refs)):
+        try:
+            r = gate.gated(mod, mod.functions["k%d_ref%d" % (li, j)])
+        except (gate.Unsupported, RecursionError, KeyError, AttributeError, ValueError, TypeError) as e:
+            ob.gated_refs.append("unavailable: %r" % (e,))
+            continue
+        ob.gated_refs.append(gate.show(r))
+        if r != g:
+            try:
+                ge, re_ = gate.expand(g), gate.expand(r)
+            except RecursionError:
+                ge, re_ = g, r
+            if ge == re_:
+                ob.status, ob.matched_ref, ob.pipeline = "proved", j, pname + "+gated+expand"
+                return True
+            ob.gated_cnl = gate.show(ge)
+            ob.gated_refs[-1] = gate.show(re_)
+        if r == g:
+            ob.status, ob.matched_ref, ob.pipeline = "proved", j, pname + "+gated"
+            return True
+    return False
 
 
 def ob_report(ob):
@@ -210,6 +245,9 @@ def ob_report(ob):
     if ob.nf_cnl is not None:
         d["cnl_normal_form"] = ob.nf_cnl.pretty
         d["ref_normal_forms"] = [n.pretty for n in ob.nf_refs]
+    if getattr(ob, "gated_cnl", None):
+        d["cnl_gated"] = ob.gated_cnl
+        d["ref_gated"] = getattr(ob, "gated_refs", None)
     if ob.fn_text:
         d["cnl_ir"] = ob.fn_text
         d["ref_ir"] = getattr(ob, "ref_texts", None)
